@@ -152,11 +152,15 @@ class Eval:
         self.seeds = seeds            # normalised expression text -> symbol name
         self.env = dict(env or {})    # local name -> RF
         self.alias = {}               # loop variable -> buffer whose rows it walks
+        self.attrs = {}               # attribute text -> RF stored by the function
 
     def ev(self, e):
         t = norm(e)
         if t in self.seeds:
-            return RF(Poly.sym(self.seeds[t]))
+            v = self.seeds[t]
+            return v if isinstance(v, RF) else RF(Poly.sym(v))
+        if isinstance(e, ast.Attribute) and t in getattr(self, 'attrs', {}):
+            return self.attrs[t]
         if isinstance(e, ast.Constant) and isinstance(e.value, (int, float)) and not isinstance(e.value, bool):
             return RF(Poly.const(Fraction(e.value).limit_denominator(1 << 30)))
         if isinstance(e, ast.Name):
@@ -215,7 +219,7 @@ class Eval:
                 return self.ev(e.args[0])
             if name == 'where' and len(e.args) == 3:
                 # where(cond, nan, x) / where(cond, x, nan): x wherever it is not replaced by the NaN marker
-                is_nan = lambda a: norm(a).split('.')[-1] in ('nan', 'NaN', 'NAN')      # noqa: E731
+                from .infnan import is_nan_expr as is_nan
                 if is_nan(e.args[1]):
                     return self.ev(e.args[2])
                 if is_nan(e.args[2]):
@@ -277,6 +281,11 @@ def run_function(fnode, seeds, loop_bind=None, helper=None):
                         evl.env.pop(t.id, None)
                     else:
                         evl.env[t.id] = v
+                elif isinstance(t, ast.Attribute):
+                    if v is None:
+                        evl.attrs.pop(norm(t), None)
+                    else:
+                        evl.attrs[norm(t)] = v
                 elif isinstance(t, ast.Subscript) and isinstance(t.value, ast.Name):
                     # result[d] = value (value stored element-wise) / result[mask] = nan (a marker, not a value change)
                     if v is not None and isinstance(t.slice, (ast.Name, ast.Constant, ast.Tuple, ast.Slice)):
@@ -300,5 +309,130 @@ def run_function(fnode, seeds, loop_bind=None, helper=None):
             if isinstance(st, (ast.If, ast.Try, ast.With)):
                 block(st.body)
                 continue
+    block(fnode.body)
+    run_function.last_attrs = dict(evl.attrs)
+    return outs
+
+
+# ------------------------------------------------------------------------------------------------ class-axis vectors
+class VecEval(Eval):
+    """values are an RF (scalar over the class axis) or a list of K RFs (one per class); arithmetic broadcasts, `sum` / `mean` over
+    the class axis reduce a vector to a scalar, layout operations are identities (the axis typing rule owns the layout)"""
+
+    def __init__(self, seeds, vectors, K):
+        super().__init__(seeds)
+        self.vectors = vectors        # normalised text -> list of K symbol names
+        self.K = K
+
+    def lift(self, op, a, b):
+        if isinstance(a, list) or isinstance(b, list):
+            A = a if isinstance(a, list) else [a] * self.K
+            B = b if isinstance(b, list) else [b] * self.K
+            return [op(x, y) for x, y in zip(A, B)]
+        return op(a, b)
+
+    def ev(self, e):
+        t = norm(e)
+        if isinstance(e, ast.Name) and e.id in self.env:
+            return self.env[e.id]
+        if t in self.vectors:
+            return [RF(Poly.sym(s)) for s in self.vectors[t]]
+        if t in self.seeds:
+            v = self.seeds[t]
+            return v if isinstance(v, (RF, list)) else RF(Poly.sym(v))
+        if isinstance(e, ast.Name) and e.id in self.env:
+            return self.env[e.id]
+        if isinstance(e, ast.UnaryOp) and isinstance(e.op, ast.USub):
+            v = self.ev(e.operand)
+            neg = lambda x: RF(-x.num, x.den, x.roots)     # noqa: E731
+            return [neg(x) for x in v] if isinstance(v, list) else neg(v)
+        if isinstance(e, ast.BinOp):
+            if isinstance(e.op, ast.Pow):
+                k = const_value(e.right)
+                b = self.ev(e.left)
+                if isinstance(k, float) and k == 0.5:
+                    return [self.sqrt(x) for x in b] if isinstance(b, list) else self.sqrt(b)
+                if not isinstance(k, int) or isinstance(k, bool) or not 0 <= k <= 4:
+                    raise Unknown(f'power {norm(e.right)}')
+
+                def pw(x):
+                    r = RF(Poly.const(1))
+                    for _ in range(k):
+                        r = r.mul(x)
+                    return r
+                return [pw(x) for x in b] if isinstance(b, list) else pw(b)
+            l, r = self.ev(e.left), self.ev(e.right)
+            ops = {ast.Mult: lambda x, y: x.mul(y), ast.MatMult: None, ast.Div: lambda x, y: x.mul(y, -1), ast.Add: lambda x, y: x.add(y), ast.Sub: lambda x, y: x.add(y, -1)}
+            op = ops.get(type(e.op))
+            if op is None:
+                raise Unknown(f'operator {type(e.op).__name__}')
+            return self.lift(op, l, r)
+        if isinstance(e, ast.Subscript):
+            return self.ev(e.value)
+        if isinstance(e, ast.Attribute) and e.attr == 'T':
+            return self.ev(e.value)
+        if isinstance(e, ast.Call):
+            name = norm(e.func).split('.')[-1]
+            recv = e.func.value if isinstance(e.func, ast.Attribute) and norm(e.func.value) not in ('_np', 'np', 'numpy') else None
+            arg0 = recv if recv is not None else (e.args[0] if e.args else None)
+            if name in ('sum', 'nansum') and arg0 is not None:
+                v = self.ev(arg0)
+                if isinstance(v, list):
+                    out = v[0]
+                    for x in v[1:]:
+                        out = out.add(x)
+                    return out
+                return v                       # a sum over another axis of a class-scalar: not a class reduction
+            if name in ('mean', 'nanmean', 'average') and arg0 is not None:
+                v = self.ev(arg0)
+                if isinstance(v, list):
+                    out = v[0]
+                    for x in v[1:]:
+                        out = out.add(x)
+                    return out.mul(RF(Poly.const(self.K)), -1)
+                return v
+            if name == 'sqrt' and arg0 is not None:
+                v = self.ev(arg0)
+                return [self.sqrt(x) for x in v] if isinstance(v, list) else self.sqrt(v)
+            if name in ('square',) and arg0 is not None:
+                v = self.ev(arg0)
+                return self.lift(lambda x, y: x.mul(y), v, v)
+            if name in ('multiply', 'divide', 'true_divide', 'subtract', 'add') and len(e.args) == 2:
+                op = {'multiply': lambda x, y: x.mul(y), 'divide': lambda x, y: x.mul(y, -1), 'true_divide': lambda x, y: x.mul(y, -1), 'subtract': lambda x, y: x.add(y, -1), 'add': lambda x, y: x.add(y)}[name]
+                return self.lift(op, self.ev(e.args[0]), self.ev(e.args[1]))
+            if name in ('astype', 'copy', 'swapaxes', 'transpose', 'reshape', 'squeeze', 'asarray', 'array', 'ascontiguousarray', 'expand_dims', 'moveaxis', 'atleast_2d') and arg0 is not None:
+                return self.ev(arg0)
+            if name in ('count_nonzero',) and e.args and norm(e.args[0]) in self.seeds.get('$masks', ()):
+                return RF(Poly.const(self.K))
+            if name == 'len' and e.args and norm(e.args[0]) in self.seeds.get('$masks', ()):
+                return RF(Poly.sym('P'))
+            raise Unknown(f'call {norm(e.func)[:30]}')
+        return super().ev(e)
+
+
+def run_vector_function(fnode, ev):
+    outs = []
+
+    def block(stmts):
+        for st in stmts:
+            if isinstance(st, ast.Expr):
+                continue
+            if isinstance(st, ast.Assign) and len(st.targets) == 1 and isinstance(st.targets[0], ast.Name):
+                ev.env[st.targets[0].id] = ev.ev(st.value)
+                continue
+            if isinstance(st, ast.AugAssign) and isinstance(st.target, ast.Name):
+                cur, v = ev.ev(ast.Name(id=st.target.id, ctx=ast.Load())), ev.ev(st.value)
+                ops = {ast.Mult: lambda x, y: x.mul(y), ast.Div: lambda x, y: x.mul(y, -1), ast.Add: lambda x, y: x.add(y), ast.Sub: lambda x, y: x.add(y, -1)}
+                if type(st.op) not in ops:
+                    raise Unknown('augmented operator')
+                ev.env[st.target.id] = ev.lift(ops[type(st.op)], cur, v)
+                continue
+            if isinstance(st, ast.Return) and st.value is not None:
+                outs.append((ev.ev(st.value), st))
+                continue
+            if isinstance(st, (ast.If, ast.With, ast.Try)):
+                block(st.body)
+                continue
+            raise Unknown(f'statement `{norm(st)[:40]}`')
     block(fnode.body)
     return outs
